@@ -414,6 +414,31 @@ static void periodicCase(vf::Src &s, vf::Ctx &c)
             c.stat("periodic-latency/period", secs(Clock::now() - T) / period);
             VCHECK(c, ok, "C18/periodic-late", "periodic(%.6f): predicate true for %.3f s, condition still false", period, secs(Clock::now() - T));
             VCHECK(c, ptc.eval(), "C18/periodic-revert", "periodic condition reverted while the predicate stays true");
+            // the predicate need not be monotone: only terminate() latches. Further switches (false, true, ...) must be followed
+            // within a period (2 s of scheduling slack before it is called a violation), and the predicate must keep being asked.
+            int switches = s.in(0, 3);
+            bool want = true;
+            for (int k = 0; k < switches; ++k)
+            {
+                want = !want;
+                size_t callsBefore = calls->load();
+                flag->store(want);
+                auto T2 = Clock::now();
+                bool followed = false;
+                while (secs(Clock::now() - T2) < period * 3 + 2.0)
+                {
+                    if (ptc.eval() == want)
+                    {
+                        followed = true;
+                        break;
+                    }
+                    std::this_thread::sleep_for(std::chrono::microseconds(100));
+                }
+                c.count(want ? "periodic:switch-to-true" : "periodic:switch-to-false");
+                VCHECK(c, followed, want ? "C18/periodic-late" : "C18/periodic-latched", "periodic(%.6f): predicate switched to %s %.3f s ago, condition still reports %s (switch %d)",
+                       period, want ? "true" : "false", secs(Clock::now() - T2), want ? "false" : "true", k + 1);
+                VCHECK(c, calls->load() > callsBefore, "C18/periodic-not-evaluated", "periodic(%.6f): the predicate was not invoked again after switch %d", period, k + 1);
+            }
         }
     }  // destructor joins the evaluation thread
     size_t after = calls->load();
